@@ -353,7 +353,7 @@ Definition parent_of (path : str) : option str :=
 Fixpoint fs_mkdirall (fixed : bool) (fuel : nat) (s : server) (path : str) : server * res :=
   match srv_stat s (skey path) with
   | Some (true, _) => (s, ROk)
-  | Some (false, _) => (s, if fixed then RErr eFail else ROk)   (* `return err` with err == nil *)
+  | Some (false, _) => (s, if fixed then RErr (EW KENOTDIR) else ROk)   (* fixed: &os.PathError{..ENOTDIR}; before: `return err` with err == nil *)
   | None =>
       let finish (s1 : server) :=
         match fs_mkdir s1 path with
@@ -417,7 +417,7 @@ Definition sftp_step (st : sftp_state) (it : option nat * op) : sftp_state * res
       | SfOk (s', f) => (sf_bind s' slots slot f, RHandle 0)
       end
   | OpenFile p flag perm =>
-      match c_open s p flag false with
+      match c_open s p flag (Z.eqb sftp_openfile_client 1) with
       | SfErr e => (st, RErr e)
       | SfOk (s', f) =>
           (* sshfsFile.Chmod(perm): FSETSTAT through the path of the new handle *)
@@ -427,7 +427,7 @@ Definition sftp_step (st : sftp_state) (it : option nat * op) : sftp_state * res
           end
       end
   | Mkdir p perm => let '(s', r) := fs_mkdir s p in (mkSfSt s' slots, r)
-  | MkdirAll p perm => let '(s', r) := fs_mkdirall false (S (length p)) s p in (mkSfSt s' slots, r)
+  | MkdirAll p perm => let '(s', r) := fs_mkdirall (Z.eqb sftp_mkdirall_enotdir 1) (S (length p)) s p in (mkSfSt s' slots, r)
   | Remove p => let '(s', r) := fs_remove s p in (mkSfSt s' slots, r)
   | RemoveAll p => (st, ROk)
   | Rename p q => let '(s', r) := fs_rename s p q in (mkSfSt s' slots, r)
